@@ -2,6 +2,7 @@ package harness
 
 import (
 	"context"
+	"runtime"
 	"errors"
 	"fmt"
 	"log/slog"
@@ -35,8 +36,25 @@ func hookLock(try func() bool, lock func(), point string) {
 		k.LockHook(try, lock, point)
 		return
 	}
+	if rt := curInline; rt != nil {
+		// engine E1: one connection goroutine runs at a time, so a mutex that is
+		// not free now is held by a goroutine that will never run again (a
+		// wedged or abandoned connection): report a lock deadlock instead of
+		// blocking in the Go runtime, which would stall the simulation
+		if try() {
+			return
+		}
+		rt.lockDead = point
+		<-rt.never
+		runtime.Goexit()
+	}
 	lock()
 }
+
+var curInline *Runtime
+
+//go:norace
+func setCurInline(rt *Runtime) { curInline = rt }
 
 func init() {
 	wire.VerifYield = hookYield
@@ -163,6 +181,7 @@ type Runtime struct {
 	closerEv   [][]Event
 	closerTask []int
 	Panics     []string
+	lockDead   string
 }
 
 type mwKey int
@@ -342,6 +361,7 @@ type Result struct {
 	HoldsForced   int
 	Accepts       int
 	BuildErr      string
+	LockDead      string     // E1: a connection blocked forever on a library mutex (instrumented Lock site)
 	Points        [][]string // E2: schedule points seen per task (task 0 = accept loop, then connections, then closers)
 	NConns        int
 }
@@ -390,6 +410,12 @@ func (rt *Runtime) finish(res *Result) {
 func (rt *Runtime) teardown(res *Result) {
 	rt.setFrozen()
 	setCurKernel(nil)
+	// lock acquisition stays cooperative during teardown: a goroutine that was
+	// released through Goexit may have leaked a library mutex, and a real
+	// blocking Lock() here would stall synctest.Wait() for good
+	setCurInline(rt)
+	defer setCurInline(nil)
+	res.LockDead = rt.lockDead
 	close(rt.never)
 	synctest.Wait()
 	done := make(chan struct{})
@@ -429,6 +455,7 @@ func RunInline(c *Case) *Result {
 	}
 	rt.Srv = srv
 	setCurKernel(nil)
+	setCurInline(rt)
 	go func() {
 		rt.serveErr = srv.Serve(rt.L)
 		rt.serveDone = true
